@@ -989,6 +989,15 @@ func ValidatorSetFromProto(vp *tmproto.ValidatorSet) (*ValidatorSet, error) {
 	// power hence we need to recompute it.
 	// FIXME: We should look to remove TotalVotingPower from proto or add it in the validators hash
 	// so we don't have to do this
+	// A set from the wire whose total exceeds the maximum is an error, not a
+	// panic (TotalVotingPower panics: it is meant for sets built internally).
+	sum := int64(0)
+	for _, v := range vals.Validators {
+		sum = safeAddClip(sum, v.VotingPower)
+		if sum > MaxTotalVotingPower {
+			return nil, fmt.Errorf("total voting power of the validator set exceeds the maximum %d", MaxTotalVotingPower)
+		}
+	}
 	vals.TotalVotingPower()
 
 	return vals, vals.ValidateBasic()
